@@ -27,15 +27,19 @@ func vSnapNode(L int) (*Raft, *vAbsLog, uint64, uint64) {
 	vAssume(ci >= 1 && ci <= r.commitIndex)
 	cc := vStableConfig("ccfg", 2, ci, 1)
 	r.configs.Committed = cc
+	r.fsm.config = cc // the newest configuration entry at or below the applied index
 	li := ci
 	if vBool("pendingConfig") {
 		li = vU64("cfg.latest.index")
 		vAssume(li > r.commitIndex && li <= r.lastLogIndex)
 		lc := vStableConfig("lcfg", 2, li, 1)
 		r.configs.Latest = lc
-		// the log entry at li is that configuration entry
+		// the log entry at li is that configuration entry (a real encoding: the FSM loop decodes what it applies)
 		k := vConcreteInt(int(li - a.base - 1))
 		vAssume(vEntries[k].typ == entryConfig)
+		lc.Index, lc.Term = a.base+uint64(k)+1, vEntries[k].term
+		a.ents[k] = vEncodeEntry(lc.encode())
+		r.configs.Latest = lc
 	} else {
 		r.configs.Latest = cc
 	}
